@@ -4,5 +4,6 @@ NEXT DNext
 CONSTANTS
   MaxLen = 3
   EvalAlg = "persum"
+  Extra = TRUE
   AlgFams = {"Nasa", "Nasa9", "Shomate"}
 CHECK_DEADLOCK FALSE
